@@ -202,9 +202,27 @@ def make_cases(ctx, first):
         conf = confs[i % len(confs)]
         # an upload interrupted mid-body needs the body to be read: not when the request is refused by routing
         inter = 0.15 if (conf["push"] and not conf["ro"]) else 0
-        w = gen.World(ctx.rng, conf, repos=["a", "a/b"], profile=dict(artifact=3, sess=3, bad=0.5, interrupt=inter))
+        w = gen.World(ctx.rng, conf, repos=["a", "a/b"], profile=dict(artifact=3, sess=3, mount=2, bad=0.5, interrupt=inter))
         if i % 5 != 4:
             w.run(steps)
+        if i % 4 == 1:
+            # every kind of manifest that was pushed is deleted by digest (artifacts of both kinds, with and without artifactType)
+            for r_ in w.repos:
+                sd_ = desc(MT_OCI_M, b"subject-that-may-not-exist")
+                for at_, cfg_mt in ((None, None), ("application/vnd.example.sbom", None), (None, MT_EMPTY), ("application/vnd.example.sig", MT_CFG)):
+                    if cfg_mt is None:
+                        b_ = index_manifest([], subject=sd_, artifact_type=at_, annotations={"c15": str(len(w.steps))})
+                        mt_ = MT_OCI_I
+                    else:
+                        w.ensure_blob(r_, b"{}")
+                        b_ = image_manifest(desc(cfg_mt, b"{}"), [], subject=sd_, artifact_type=at_, annotations={"c15": str(len(w.steps))})
+                        mt_ = MT_OCI_M
+                    w.contents.add(b_)
+                    w.add(manifest_put(r_, dg("sha256", b_), b_, ctype=mt_))
+                    w.manifests[r_].append((b_, mt_))
+            for r_ in w.repos:
+                for b_, _mt in w.manifests[r_][-5:]:
+                    w.add(manifest_delete(r_, dg("sha256", b_)))
         # a few sessions left open on purpose
         for _ in range(2):
             k = w.add(upload_post(w.repo()))
